@@ -69,9 +69,9 @@ MUTANTS = [
     ("c07_keep_unconnected_in_table", "C07", M,
      "        module.close()\n        del self.modules[module.conn]\n        return True",
      "        module.close()\n        if module.connected or module.mod_id:\n            del self.modules[module.conn]\n        return True"),
-    ("c07_forget_subscriptions", "C07", M,
-     "        for msg_type in module.subs:\n            self.subscriptions[msg_type].discard(module)\n\n        # Discard from logger",
-     "        # Discard from logger"),
+    # (c07_forget_subscriptions -- not dropping the subscriptions of a removed module -- became equivalent with fix
+    #  4928b9e: the module leaves the module table before its CLIENT_CLOSED is published, and delivery skips modules
+    #  that are no longer in the table; only memory is leaked)
     ("c07_client_closed_twice", "C07", M,
      "        if self.unregister_module(module):\n            self.send_client_close(module)",
      "        if self.unregister_module(module):\n            self.send_client_close(module)\n            if module.is_logger:\n                self.send_client_close(module)"),
